@@ -73,6 +73,10 @@ class C06(Monitor):
                 self.arrived.pop(v.id, None)
             if aname(v) in TRAVELLING and len(v.vehicle_state.route) == 0:
                 self.arrived[v.id] = v.vehicle_state.instance_id
+                if aname(v) == "DispatchStation":
+                    mech = ctx.env.mechatronics.get(v.mechatronics_id)
+                    if mech is not None and mech.is_full(v):
+                        ctx.count("c06_arrivals_at_station_with_full_battery")
         ctx.count("c06_states_checked")
 
     def _check_frame(self, ctx, fr, net, dt):
